@@ -382,7 +382,7 @@ def exportCluster' (C : Codec K) (ys gons : Bool) : Cluster K → DItem
          (cov.bind (exportCovCall C covCall_StandPoint ys (!gons) (fun _ => false)
                       (flagOf (sp.obs.map (fun o => o.kind.angular)))))
   | .hdiffs dhs cov =>
-    .hdiffs (dhs.map (exportDh C.toNumFmt true C.pos))
+    .hdiffs (dhs.map (exportDh C.toNumFmt true C.pos dhStdevAlways))
             (cov.bind (exportCovCall C covCall_HeightDifferences ys (!gons) (fun _ => false) (fun _ => false)))
   | .coords ext pts cov =>
     .coords (if ext ≠ "" then [("extern", ext)] else [])
